@@ -95,3 +95,43 @@ Proof.
   - destruct (length gt); simpl; [lia|reflexivity].
   - apply Nat.ltb_lt. exact Hc.
 Qed.
+
+(* every well-nested script, run from a world whose table is well-formed, ends in a well-formed table in which the current
+   group and the group of every started simulator exist *)
+Definition Iw (w : wstate) : Prop :=
+  wfGb (w_gt w) = true /\ w_cur w < length (w_gt w) /\ forall g, In g (w_started w) -> g < length (w_gt w).
+
+Theorem nested_keeps_tables_well_formed ops : nested ops -> forall w, Iw w -> exists w',
+  grun w ops = Some w' /\ Iw w' /\ w_cur w' = w_cur w /\ w_stack w' = w_stack w /\ exists ext, w_gt w' = w_gt w ++ ext.
+Proof.
+  induction 1 as [|l Hl IH|b l Hb IHb Hl IHl]; intros w HIw; pose proof HIw as HIw0; unfold Iw in HIw; destruct HIw as (Hwf & Hc & Hst).
+  - exists w. split; [reflexivity|]. split; [exact HIw0|]. repeat split; try reflexivity. exists []. rewrite app_nil_r. reflexivity.
+  - destruct (IH (mkW (w_gt w) (w_cur w) (w_stack w) (w_cur w :: w_started w))) as (w' & Hr & HI & Hc' & Hs' & ext & Hg).
+    { unfold Iw. cbn [w_gt w_cur w_started]. repeat split; try assumption. intros g [<-|Hg]; [exact Hc|apply Hst, Hg]. }
+    exists w'. simpl. split; [exact Hr|]. split; [exact HI|]. repeat split; try assumption. exists ext. exact Hg.
+  - cbn [grun gstep group_enter].
+    set (w1 := mkW (w_gt w ++ [Some (w_cur w)]) (length (w_gt w)) (w_cur w :: w_stack w) (w_started w)).
+    assert (I1 : Iw w1).
+    { unfold Iw, w1. cbn [w_gt w_cur w_started]. split; [|split].
+      - apply (enter_keeps_wf (w_gt w) (w_cur w) Hwf Hc).
+      - rewrite app_length. simpl. lia.
+      - intros g Hg. rewrite app_length. specialize (Hst g Hg). lia. }
+    destruct (IHb w1 I1) as (w2 & Hr2 & HI2 & Hc2 & Hs2 & ext2 & Hg2). unfold Iw in HI2. destruct HI2 as (Hwf2 & Hc2b & Hst2).
+    rewrite grun_app, Hr2. cbn [grun gstep]. rewrite Hs2. cbn [w_stack w1]. unfold group_leave.
+    assert (I3 : Iw (mkW (w_gt w2) (w_cur w) (w_stack w) (w_started w2))).
+    { unfold Iw. cbn [w_gt w_cur w_started]. split; [exact Hwf2|]. split; [|exact Hst2].
+      rewrite Hg2. cbn [w_gt w1]. rewrite !app_length. simpl. lia. }
+    destruct (IHl _ I3) as (w3 & Hr3 & HI3 & Hc3 & Hs3 & ext3 & Hg3).
+    exists w3. split; [exact Hr3|]. split; [exact HI3|]. repeat split; try assumption. exists ([Some (w_cur w)] ++ ext2 ++ ext3).
+    rewrite Hg3. cbn [w_gt]. rewrite Hg2. cbn [w_gt w1]. rewrite <- !app_assoc. reflexivity.
+Qed.
+
+(* from the world as World.__init__ makes it: one group, the root, which is the current one *)
+Corollary scripts_build_well_formed_tables ops : nested ops -> exists w',
+  grun (mkW [None] 0 [] []) ops = Some w' /\ wfGb (w_gt w') = true /\ w_cur w' = 0 /\ forall g, In g (w_started w') -> g < length (w_gt w').
+Proof.
+  intros H. destruct (nested_keeps_tables_well_formed ops H (mkW [None] 0 [] [])) as (w' & Hr & HI & Hc & _ & _).
+  - unfold Iw. cbn [w_gt w_cur w_started]. repeat split; [simpl; lia|intros g []].
+  - unfold Iw in HI. destruct HI as (Hwf & _ & Hst).
+    exists w'. repeat split; assumption.
+Qed.
